@@ -31,8 +31,9 @@ def status_ok(status, allowed):
     return False
 
 
-def steps_of(g, path, rnd):
+def steps_of(g, path, rnd, stateful=True):
     steps = []
+    nreq = 0
     for ei in path:
         _, _, name, args = g.edges[ei]
         if name == "StreamClose":
@@ -42,6 +43,12 @@ def steps_of(g, path, rnd):
         st = {"op": OPS[name], "cls": h["cls"], "s": h["s"], "sse": rnd.random() < 0.4, "variant": rnd.randrange(8)}
         if name == "Delete":
             st["ends"] = args[3]
+        if not stateful and st["op"] == "req":
+            # without sessions the answer must not depend on earlier requests: the first two requests and every other one after them are
+            # the same call of the tool that counts in its session's data
+            nreq += 1
+            if nreq <= 2 or nreq % 2 == 1:
+                st["variant"], st["sse"] = 2, False
         steps.append(st)
     return steps
 
@@ -88,7 +95,7 @@ def judge_path(run, cfg, g, path, steps, res, bodies):
             if o.get("ended") is not True:
                 run.diverge(key + " stream-not-ended", "DELETE of %s did not end its open listening stream; history: %s" % (args[3], hist), rp)
         if cfg["mode"] != "stateful" and st["op"] == "req" and o["status"] == 200:
-            bk = (json.dumps(cfg, sort_keys=True), st["variant"] % 2, st["sse"])
+            bk = (json.dumps(cfg, sort_keys=True), st["variant"] % 4, st["sse"])
             body = normalise_body(o.get("body", ""))
             if bk in bodies and bodies[bk] != body:
                 run.diverge(key + " history-dependent", "the same request got a different answer later: %r vs %r" % (bodies[bk][:200], body[:200]), rp)
@@ -176,7 +183,7 @@ def run(tier, replay=None):
                     paths += graphwalk.random_walks(g, 200 if mode == "stateful" else 20, 40, rnd)
                 plist = []
                 for n, p in enumerate(paths):
-                    plist.append({"id": "%s-%s-%s-%d" % (mode[:4], get, postsse, n), "path": p, "steps": steps_of(g, p, rnd)})
+                    plist.append({"id": "%s-%s-%s-%d" % (mode[:4], get, postsse, n), "path": p, "steps": steps_of(g, p, rnd, mode == "stateful")})
                 jobs.append((cfg, plist))
             if mode == "stateful" and get:
                 # the same kind of walks, all at once on ONE server (concurrent sessions)
